@@ -229,8 +229,8 @@ Definition fmtE (upper : bool) (x : spec_float) (d : nat) : str :=
   end.
 
 (* what the E branch of FloatField._textual_write hands to format: round(x, d - floor(log10|x|)), x <> 0.
-   floor(log10|x|) is exact here; the C library's log10 is not modelled (DESIGN.md, trusted base): just below a power of
-   ten it may round up to the integer, and the harness takes such inputs out of the correspondence. *)
+   The exponent is exact: the code computes it with Decimal(value).adjusted() (since fix 9058f8c; before that it used
+   floor(log10(|x|)), which rounds up just below a power of ten -- defect 11 in DESIGN.md). *)
 Definition sci_nd (m : positive) (e : Z) (d : nat) : Z :=
   let (num, den) := scaled m e 0 in Z.of_nat d - ilog10 num den.
 Definition sci_val (x : spec_float) (d : nat) : spec_float :=
@@ -238,10 +238,9 @@ Definition sci_val (x : spec_float) (d : nat) : spec_float :=
   | S754_finite s m e => match py_round x (sci_nd m e d) with Some y => y | None => S754_infinity s end
   | _ => x
   end.
-(* the write raises OverflowError: round() overflows, or floor(log10(inf)) *)
+(* the write raises OverflowError: round() overflows (an infinite value is written as INF) *)
 Definition sci_raises (x : spec_float) (d : nat) : bool :=
   match x with
   | S754_finite s m e => match py_round x (sci_nd m e d) with Some _ => false | None => true end
-  | S754_infinity _ => true
   | _ => false
   end.
